@@ -1,12 +1,12 @@
 SPECIFICATION Spec
 CONSTANTS
-  Secs <- TSecs
-  Ticks <- TTicks
-  Grads <- TGrads
-  GTols <- TGTols
+  Secs <- WSecs
+  Ticks <- WTicks
+  Grads <- WGrads
+  GTols <- WGTols
   Norms <- QNorms
-  GScales <- QGScales
-  MaxLen = 3
+  GScales <- WGScales
+  MaxLen = 2
 INVARIANT LoggedIsVerdict
 INVARIANT GradHomogeneous
 INVARIANT Emit
